@@ -77,19 +77,17 @@ fn extract_bracket_expr(pattern: &str) -> Option<(String, &str)> {
                 //
                 //     6. ...  A character class expression is expressed as a character class name
                 //        enclosed within bracket- <colon> ( "[:" and ":]" ) delimiters.
-                next = chars.next();
-                if let Some(delim) = next {
-                    expr.push(delim);
-
-                    if matches!(delim, '.' | '=' | ':') {
-                        let rest = chars.as_str();
-                        // Look for the two-character terminator (":]", ".]" or "=]"), not
-                        // for the first occurrence of either character.
-                        let terminator: String = [delim, ']'].iter().collect();
-                        let end = rest.find(&terminator)? + 2;
-                        expr.push_str(&rest[..end]);
-                        chars = rest[end..].chars();
-                    }
+                //
+                // Any other '[' inside a bracket expression is an ordinary member, and
+                // the character after it is examined as usual.
+                let rest = chars.as_str();
+                if let Some(delim) = rest.chars().next().filter(|c| matches!(c, '.' | '=' | ':')) {
+                    // Look for the two-character terminator (":]", ".]" or "=]"), not
+                    // for the first occurrence of either character.
+                    let terminator: String = [delim, ']'].iter().collect();
+                    let end = 1 + rest[1..].find(&terminator)? + 2;
+                    expr.push_str(&rest[..end]);
+                    chars = rest[end..].chars();
                 }
             }
             ']' => {
